@@ -8,7 +8,8 @@ from harness import project
 from harness.rowtrace import norm_obs_expr_lit as norm_obs_expr, norm_src_expr_lit as norm_src_expr
 
 DATASET = {"valid": "people", "reserved_prefix": "__people", "period": "peo.ple", "digit_first": "1people", "space": "peo ple"}
-PROP = {"valid": None, "name": "name", "Label": "Label", "reserved_prefix": "__p", "digit_first": "1p", "space": "p q"}
+PROP = {"valid": None, "name": "name", "Label": "Label", "reserved_prefix": "__p", "digit_first": "1p", "space": "p q",
+        "inner_dunder": "tree__height", "trailing_dunder": "girth__", "underscore_first": "_a__b"}
 SITE_ROW = {"top": "t1", "group": "t2", "repeat": "t3", "grouprow": "g1", "group_in_repeat": "t4"}
 SITE_PATH = {"top": ["t1"], "group": ["g1", "t2"], "repeat": ["r1", "t3"], "grouprow": ["g1"], "group_in_repeat": ["r1", "g2", "t4"]}
 
@@ -51,8 +52,8 @@ def build(case):
             if case[k]:
                 ecols.append(col)
                 erow.append(expr[k])
-        if case["extracol"]:
-            ecols.append("wat")
+        if case["extracol"] != "none":
+            ecols.append(case["extracol"])
             erow.append("x")
         if case["nrows"] == 3:
             # two rows: the declaration proper, and a second, non-empty row that has no dataset name
